@@ -918,6 +918,10 @@ int vorbis_encode_setup_vbr(vorbis_info *vi,
   ci=vi->codec_setup;
   hi=&ci->hi;
 
+  /* the set-up has been completed: its tables are built for the
+     channels and rate staged then */
+  if(hi->set_in_stone)return(OV_EINVAL);
+
   quality+=.0000001;
   if(quality>=1.)quality=.9999;
 
@@ -968,6 +972,10 @@ int vorbis_encode_setup_managed(vorbis_info *vi,
   ci=vi->codec_setup;
   hi=&ci->hi;
   tnominal=nominal_bitrate;
+
+  /* the set-up has been completed: its tables are built for the
+     channels and rate staged then */
+  if(hi->set_in_stone)return(OV_EINVAL);
 
   if(nominal_bitrate<=0.){
     if(max_bitrate>0.){
